@@ -255,6 +255,24 @@ Proof.
   - right. apply mem_list_In. exact H.
 Qed.
 
+Theorem check_roots_defined_ok : forall d roots,
+  check_roots_defined d roots = true -> forall e, In e roots -> defined d e.
+Proof.
+  intros d roots H e He. unfold check_roots_defined in H.
+  rewrite forallb_forall in H. apply definedb_build. apply H. exact He.
+Qed.
+
+Theorem check_groups_ok : forall groups roots,
+  check_groups groups roots = true ->
+  forall g l, In (g, l) groups -> l <> [] /\ forall e, In e l -> In e roots.
+Proof.
+  intros groups roots H g l Hg. unfold check_groups in H.
+  rewrite forallb_forall in H. specialize (H (g, l) Hg).
+  change (match l with [] => false | _ => forallb (fun e => mem_list e roots) l end = true) in H.
+  destruct l as [| x r]; [discriminate |]. split; [discriminate |].
+  intros e He. rewrite forallb_forall in H. apply mem_list_In. apply H. exact He.
+Qed.
+
 Theorem check_excluded_ok : forall ex abort_only,
   check_excluded ex abort_only = true ->
   forall a b, In (a, b) ex -> In b abort_only.
